@@ -58,6 +58,8 @@ def gen_inputs(rng, styled_p=0.5, out_p=0.0, max_models=2):
     if r < 0.83:
         name, docs = gen.gen_shared_under_root(rng)
         return [(name, docs)]
+    if r < 0.85:
+        return [("Root", gen.gen_key_order_swap(rng))]
     n = rng.choice([1] * 3 + [2] * (max_models > 1))
     kp = gen.key_pool(rng, styled_p, out_p)
     out = []
